@@ -19,7 +19,8 @@ RULE = ("the OS random source (os.urandom, random._urandom, os.getrandom) is rep
         "every one of the ENT entropy bits takes both values and all mnemonics are pairwise distinct; (4) call histories of length <=3 over "
         "a 3-answer alphabet (27 per entry point): result j depends on answer j only; (5) with the REAL OS source, resetting random.seed "
         "does not repeat the wallet; (6) when every request to the OS source raises (NotImplementedError / OSError) no wallet is returned. non-trivial = a creation whose OS requests were logged and whose mnemonic was decoded; distinct = "
-        "distinct (entry point, length, answer | history | PRNG state)")
+        "distinct (entry point, length, answer | history | PRNG state)"
+        "; distinctness is judged by COUNT: among the single-bit answers over all R requested bytes at least ENT+1 distinct wallets (a design may ignore surplus bytes)")
 
 ENTRIES = ["BaseWallet.new_wallet", "BaseWallet.from_entropy_bits", "PaperWallet.new_wallet", "mnemonic_from_entropy_bits", "cli-new"]
 
